@@ -371,6 +371,10 @@ func Epoch()                                      {}
 // variable since the last Epoch; natively it cannot be observed and is true.
 func NoGlobalWrites() bool { return true }
 
+// NoSharedWrites reports (engine only) that no repository function has stored, since the last Epoch,
+// into memory that already existed at that Epoch (inputs, captured variables of earlier closures).
+func NoSharedWrites() bool { return true }
+
 // Ite and friends build one term instead of forking (natively: plain Go).
 func Ite(c bool, a, b float64) float64 {
 	if c {
